@@ -3,7 +3,9 @@
    PrintT(<<"CASE", json>>) per case (every case is an initial state), plus
    the file tree the harness has to build.  `tags` are the antecedents of
    the property clauses that hold for the case, evaluated here so that the
-   driver only has to count them (vacuity, distinct_nontrivial). *)
+   driver only has to count them (vacuity, distinct_nontrivial).  `ans` of
+   an access case is the value a site hook has to return in that situation
+   (FrontEnd!Answer); the hook of the harness returns just that. *)
 EXTENDS FrontEnd_MC
 
 Tree == [ top   |-> Top,
@@ -19,11 +21,14 @@ StaticTags(r) == (IF Escapes(r) THEN {"escapes"} ELSE {})
 AccessTags(s) == (IF Stranger(s) /\ IsCommand(s.e) THEN {"stranger_command"} ELSE {})
             \cup (IF HookFails(s) THEN {"hook_fails"} ELSE {})
             \cup (IF ImplRan(s) THEN {"expected_to_run"} ELSE {})
+            \cup (IF HookSaysNo(s) THEN {"hook_says_no"} ELSE {})
+            \cup (IF HookSaysNo(s) /\ Answer(s) # "False" THEN {"hook_no_not_False"} ELSE {})
+            \cup (IF IsSite(s) /\ ImplRan(s) /\ Answer(s) # "True" THEN {"hook_yes_not_True"} ELSE {})
 
 CaseJson(x) ==
     IF x.k = "static"
     THEN ToJson([k |-> x.k, lead |-> x.lead, segs |-> x.segs, q |-> x.q, uri |-> Uri(x), tags |-> StaticTags(x)])
-    ELSE ToJson([k |-> x.k, e |-> x.e, m |-> x.m, certs |-> x.certs, tr |-> x.tr, hook |-> x.hook, tags |-> AccessTags(x)])
+    ELSE ToJson([k |-> x.k, e |-> x.e, m |-> x.m, certs |-> x.certs, tr |-> x.tr, hook |-> x.hook, ans |-> Answer(x), tags |-> AccessTags(x)])
 
 GenInit == /\ c \in Cases
            /\ PrintT(<<"CASE", CaseJson(c)>>)
